@@ -50,3 +50,52 @@
 //@   ensures [C17.accepting.sudo] r == Ok::<AppResponse, AnyError>(default_app()) && final(_storage).view() == old(_storage).view()
 //@ end
 }
+
+// ------------------------------------------------------------------ src/stargate.rs : the stock Stargate handlers.  StargateFailing
+// uses the trait's default methods (every call is an error); they are emitted as inherent methods of it (rule R12).
+// StargateAccepting succeeds with the default response / an empty answer.  Neither touches the store.
+//@ item! src/stargate.rs :: struct StargateFailing
+//@ item! src/stargate.rs :: struct StargateAccepting
+impl StargateFailing {
+//@ fn src/stargate.rs :: trait Stargate :: execute_stargate
+//@   ret r
+//@   replace_re? "where\\s*ExecC: CustomMsg \\+ DeserializeOwned \\+ 'static,\\s*QueryC: CustomQuery \\+ DeserializeOwned \\+ 'static,\\s*" => ""
+//@   ensures [C17.stargate_failing.exec] r is Err && final(_storage).view() == old(_storage).view()
+//@ end
+//@ fn src/stargate.rs :: trait Stargate :: query_stargate
+//@   ret r
+//@   ensures [C17.stargate_failing.query,C10] r is Err
+//@ end
+//@ fn src/stargate.rs :: trait Stargate :: execute_any
+//@   ret r
+//@   replace_re? "where\\s*ExecC: CustomMsg \\+ DeserializeOwned \\+ 'static,\\s*QueryC: CustomQuery \\+ DeserializeOwned \\+ 'static,\\s*" => ""
+//@   ensures [C17.stargate_failing.any] r is Err && final(_storage).view() == old(_storage).view()
+//@ end
+//@ fn src/stargate.rs :: trait Stargate :: query_grpc
+//@   ret r
+//@   ensures [C17.stargate_failing.grpc,C10] r is Err
+//@ end
+}
+impl StargateAccepting {
+//@ fn src/stargate.rs :: Stargate for StargateAccepting :: execute_stargate
+//@   ret r
+//@   begin broadcast use {axiom_vec_canon, axiom_vec_of_view, lemma_vec_ext_b};
+//@   replace_re? "where\\s*ExecC: CustomMsg \\+ DeserializeOwned \\+ 'static,\\s*QueryC: CustomQuery \\+ DeserializeOwned \\+ 'static,\\s*" => ""
+//@   ensures [C17.stargate_accepting.exec] r == Ok::<AppResponse, AnyError>(default_app()) && final(_storage).view() == old(_storage).view()
+//@ end
+//@ fn src/stargate.rs :: Stargate for StargateAccepting :: query_stargate
+//@   ret r
+//@   replace? ".map_err(Into::into)" => ".map_err(|vx_e: StdError| -> (vx_o: AnyError) { AnyError })"
+//@   ensures [C17.stargate_accepting.query,C10] (r is Ok) == spec_json_ok(Empty {}) && (r is Ok ==> r->Ok_0 == spec_json(Empty {}))
+//@ end
+//@ fn src/stargate.rs :: Stargate for StargateAccepting :: execute_any
+//@   ret r
+//@   begin broadcast use {axiom_vec_canon, axiom_vec_of_view, lemma_vec_ext_b};
+//@   replace_re? "where\\s*ExecC: CustomMsg \\+ DeserializeOwned \\+ 'static,\\s*QueryC: CustomQuery \\+ DeserializeOwned \\+ 'static,\\s*" => ""
+//@   ensures [C17.stargate_accepting.any] r == Ok::<AppResponse, AnyError>(default_app()) && final(_storage).view() == old(_storage).view()
+//@ end
+//@ fn src/stargate.rs :: Stargate for StargateAccepting :: query_grpc
+//@   ret r
+//@   ensures [C17.stargate_accepting.grpc,C10] r is Ok && r->Ok_0.b@.len() == 0
+//@ end
+}
